@@ -268,6 +268,8 @@ def scalar(v):
     if isinstance(v, (int, float, bool, str)) or v is None:
         return v
     if isinstance(v, dict):
+        if "$ref" in v and len(v) == 1:
+            return scalar(v["$ref"])
         if "$char" in v:
             return v["$char"]
         if "$str" in v:
